@@ -362,13 +362,95 @@ var _ = resp.Cmd
 
 func checkC09(r *verdict.Run) {
 	r.Rule = "(1) random transaction programs on one connection (any order of MULTI/EXEC/DISCARD/WATCH/UNWATCH, queued commands of all families incl. run-time failures, queue-time rejections, blocking commands with timeout 0, SELECT) with a second connection interfering, in lock step with the reference model: QUEUED replies, nothing visible before EXEC (state compared after every step through an observer connection), EXEC array per queued command or EXECABORT/null, state machine after EXEC/DISCARD, misuse errors; " +
-		"(2) isolation under concurrency: 4 writers run transactions that keep invariants (x = y, a token in exactly one key, an element in exactly one list) while 4 readers check them with atomic multi-key reads, with yields injected between the commands of EXEC; (3) canary liveness after every program. " +
+		"(2) isolation under concurrency: 4 writers run transactions that keep invariants (x = y, a token in exactly one key, an element in exactly one list) while 4 readers check them with atomic multi-key reads, with yields injected between the commands of EXEC; (3) canary liveness after every program; (4) commands with locks of their own (CLIENT LIST/INFO/KILL/UNBLOCK, INFO, FLUSHALL, SELECT, KEYS, COPY ...) inside transactions on four connections and outside on four others at the same time: every command must be answered. " +
 		"distinct = (command, MULTI state, outcome class) + EXEC element classes + isolation runs"
 	c09Sequential(r, tierPick(r, 400, 8000))
 	c09Isolation(r, tierPick(r, 6, 40), false)
+	c09Introspection(r, tierPick(r, 8, 60))
 	if r.Tier == "thorough" {
 		c09Isolation(r, 6, true)
 	}
 }
 
 func pick2(rng *rand.Rand, l [][]string) []string { return l[rng.Intn(len(l))] }
+
+// c09Introspection: commands that take locks of their own (the client table, the statistics, other databases) run
+// inside transactions on some connections and outside on others at the same time. Every command must be answered:
+// a lock order that differs between the two paths shows as a wedge of all participants.
+func c09Introspection(r *verdict.Run, runs int) {
+	inside := [][]string{{"CLIENT", "LIST"}, {"CLIENT", "INFO"}, {"CLIENT", "KILL", "ID", "999999"}, {"CLIENT", "UNBLOCK", "999999"}, {"INFO"}, {"CLIENT", "GETNAME"}, {"CLIENT", "SETNAME", "n"}, {"DBSIZE"}, {"KEYS", "*"},
+		{"FLUSHALL"}, {"SELECT", "1"}, {"COPY", "x", "y", "REPLACE"}, {"RANDOMKEY"}, {"SCAN", "0"}, {"COMMAND", "COUNT"}, {"SET", "x", "1"}}
+	outside := [][]string{{"CLIENT", "LIST"}, {"CLIENT", "INFO"}, {"CLIENT", "KILL", "ID", "999998"}, {"CLIENT", "UNBLOCK", "999998"}, {"INFO"}, {"FLUSHALL"}, {"FLUSHDB"}, {"DBSIZE"}, {"CLIENT", "LIST", "ID", "1", "2"},
+		{"SELECT", "1"}, {"SELECT", "0"}, {"SET", "x", "2"}, {"KEYS", "*"}, {"HELLO", "3"}, {"HELLO", "2"}}
+	parallel(runs, 8, func(run int) {
+		c, err := startChild(false)
+		if err != nil {
+			r.Inconclusive("cannot start child")
+			return
+		}
+		defer c.Stop()
+		e, err := startEmu(c, "")
+		if err != nil {
+			r.Inconclusive("infra: " + err.Error())
+			return
+		}
+		c.Ctl("seed %d", r.Seed*59+int64(run))
+		c.Ctl("yield ds: 200 100")
+		c.Ctl("yield exec:between-commands 300 200")
+		var wg sync.WaitGroup
+		var stuck atomic.Int64
+		var ops atomic.Int64
+		var mu sync.Mutex
+		var lastCmds []string
+		worker := func(id int, txn bool) {
+			defer wg.Done()
+			cn, err := e.dial()
+			if err != nil {
+				return
+			}
+			defer cn.Close()
+			cn.Proto = 3
+			cn.Timeout = 8 * time.Second
+			rng := shardRng(r, 7000+run*100+id)
+			for i := 0; i < 120 && stuck.Load() == 0; i++ {
+				var cmds [][]string
+				if txn {
+					cmds = [][]string{{"MULTI"}}
+					for k := 0; k < 1+rng.Intn(3); k++ {
+						cmds = append(cmds, inside[rng.Intn(len(inside))])
+					}
+					cmds = append(cmds, []string{"EXEC"})
+				} else {
+					cmds = [][]string{outside[rng.Intn(len(outside))]}
+				}
+				if _, err := cn.Pipeline(cmds); err != nil {
+					if stuck.Add(1) == 1 {
+						mu.Lock()
+						lastCmds = quoteCmds(cmds)
+						mu.Unlock()
+					}
+					return
+				}
+				ops.Add(int64(len(cmds)))
+			}
+		}
+		for i := 0; i < 4; i++ {
+			wg.Add(2)
+			go worker(i, true)
+			go worker(10+i, false)
+		}
+		wg.Wait()
+		r.Eval(int(ops.Load()))
+		r.Count("introspection_commands_answered", ops.Load())
+		if stuck.Load() > 0 {
+			dump := ""
+			if c.Alive() {
+				dump = stallSummary(c.SigQuitDump())
+			}
+			mu.Lock()
+			r.Report("txn/wedged/introspection-inside-and-outside-transactions", fmt.Sprintf("run %d: %d connections got no reply within 8 s while 4 connections ran transactions containing CLIENT LIST/KILL/UNBLOCK/INFO/FLUSHALL/... and 4 ran the same commands outside transactions (first unanswered: %v)\ngoroutines blocked on a mutex:\n%s", run, stuck.Load(), lastCmds, dump), map[string]any{"unanswered": lastCmds})
+			mu.Unlock()
+		}
+		r.Distinct(fmt.Sprintf("introspection/run%d/wedged=%v", run%4, stuck.Load() > 0))
+	})
+}
